@@ -46,4 +46,8 @@ let () = main_loop (fun w -> match w with
   | "sel" :: cnt :: tph :: envw ->
     let s = select (opt_set tph) (nat_of_int (int_of_string cnt)) (pairs envw) in
     String.concat " " [hex_of_bytes s.sel_client; hex_of_bytes s.sel_host; hex_of_bytes s.sel_proto; hex_of_bytes s.sel_port]
+  (* primitives the specification (and the model) are built from, for the exhaustive latin-1 tables *)
+  | ["lower"; s] -> hex_of_bytes (lower_latin1 (bytes_of_hex s))
+  | ["strip"; s] -> hex_of_bytes (strip (bytes_of_hex s))
+  | ["fieldvalue"; s] -> (let v = bytes_of_hex s in if bad_quoting v then "bad" else "ok " ^ hex_of_bytes (field_value v))
   | _ -> "ERR bad command")
